@@ -84,6 +84,10 @@ def _sample(m, spec, n):
     if spec[0] == 'gm-cond':
         df = zoo.training_data(('gm',) + spec[1:])
         c = df.columns[1]
+        if n == 3:
+            # the same condition handed over as a pandas Series (the other documented container): same stream protocol
+            import pandas as pd
+            return m.sample(n, conditions=pd.Series({c: float(df[c].iloc[2])}))
         return m.sample(n, conditions={c: float(df[c].iloc[2])})
     if spec[0] in ('uni',):
         return m.sample(n)
